@@ -53,7 +53,8 @@ def cases(draw):
 
 def plan(tier):
     n = 480 if tier == "quick" else 32000
-    return [{"kind": "hyp", "name": "images", "strategy": cases(), "examples": n}]
+    return [{"kind": "hyp", "name": "images", "strategy": cases(), "examples": n},
+            {"kind": "hyp", "name": "in-place-pairs", "strategy": common.in_place_pairs(cases()), "examples": max(60, n // 10)}]
 
 
 def classify(case):
